@@ -163,6 +163,10 @@ def make_pool(rng: PlanRng):
     pool["Kv1"] = sig(rng.uniform(0.3, 3.0, n_rec))
     Km = np.diag(rng.uniform(0.5, 2.0, n_rec)) + rng.uniform(0.0, 0.08, (n_rec, n_rec))
     pool["Km"] = sig(Km)
+    # structured matrices: lower / upper triangular (an adaptation that only feeds forward)
+    Kt = sig(np.diag(rng.uniform(0.5, 2.0, n_rec)) + rng.uniform(-0.3, 0.3, (n_rec, n_rec)))
+    pool["Kml"] = np.tril(Kt)
+    pool["Kmu"] = np.triu(Kt)
     pool["b0"] = 0.0
     pool["bs"] = float(sig(rng.uniform(0.1, 1.0)))
     pool["bv0"] = sig(rng.uniform(0.1, 1.0, n_rec))
@@ -183,6 +187,7 @@ def make_pool(rng: PlanRng):
         pool[f"lb{k}a"] = sig(rng.uniform(0.05, 0.5, k))
         pool[f"ub{k}a"] = sig(rng.uniform(1.0, 4.0, k))
         pool[f"ub{k}b"] = sig(rng.uniform(5.0, 10.0, k))
+        pool[f"lb{k}B"] = sig(rng.uniform(4.1, 4.9, k))     # above every "small" upper bound
         # integer-typed bounds (a caller writing ub=[2, 5, 3]) - same meaning, other dtype
         pool[f"ub{k}i"] = np.asarray([rng.integers(2, 9) for _ in range(k)], dtype=np.int64)
         pool[f"lb{k}i"] = np.zeros(k, dtype=np.int64)
@@ -236,6 +241,7 @@ class Sym:
         self.n_src = None
         self.has_tgt = False
         self.has_W = False      # per-sample weights registered with the targets
+        self.lb_big = False     # the registered lower bound lies above the small upper bounds
 
     def copy(self):
         s = Sym()
@@ -248,6 +254,12 @@ def sym_apply(sym: Sym, op, meta):
     m = op["m"]
     if op.get("reject"):
         return sym.has_sys or m == "register_system"
+    def big_ub(r):
+        return isinstance(r, str) and (r == "ubs1" or r.endswith("b"))
+
+    def big_lb(r):
+        return isinstance(r, str) and r.endswith("B")
+
     if m == "register_system":
         sym.has_sys = True
         k = meta["n_src"][op["sources"]]
@@ -255,6 +267,9 @@ def sym_apply(sym: Sym, op, meta):
             r = op.get(b)
             if isinstance(r, str) and r[2:-1].isdigit() and int(r[2:-1]) != k:
                 return False
+        if big_lb(op.get("lb")) and not (op.get("ub") is None or big_ub(op.get("ub"))):
+            return False                     # would register an empty box
+        sym.lb_big = big_lb(op.get("lb"))
         sym.n_src = k
         return True
     if m in ("register_adaptation", "register_baseline", "register_background_adaptation"):
@@ -266,6 +281,12 @@ def sym_apply(sym: Sym, op, meta):
             r = op.get(b)
             if isinstance(r, str) and r[2:-1].isdigit() and int(r[2:-1]) != sym.n_src:
                 return False
+        lb_after = big_lb(op["lb"]) if op.get("lb") is not None else sym.lb_big
+        if op.get("ub") is not None and lb_after and not big_ub(op["ub"]):
+            return False                     # would register an empty box
+        if big_lb(op.get("lb")) and op.get("ub") is None:
+            return False                     # the current upper bound may be a small one
+        sym.lb_big = lb_after
         return True
     if m == "register_system_adaptation":
         r = op["x"]
@@ -673,16 +694,18 @@ def random_mutator(rng: PlanRng, sym: Sym, meta, first=False, allow_reject=False
         return {"m": "register_system", "sources": src, "domain": dom, "lb": lb, "ub": ub}
 
     def m_bounds():
-        lb = rng.choice([None, "lbs", f"lb{k}a", f"lb{k}i"], p=[3, 1, 2, 0.5])
+        lb = rng.choice([None, "lbs", f"lb{k}a", f"lb{k}i", f"lb{k}B"], p=[3, 1, 2, 0.5, 0.8])
         ub = rng.choice([None, "ubs0", "ubs1", f"ub{k}a", f"ub{k}b", f"ub{k}i"],
                         p=[1, 1, 1, 2, 2, 1.5])
+        if lb == f"lb{k}B":
+            ub = rng.choice(["ubs1", f"ub{k}b"])     # lower and upper bound raised together
         if lb is None and ub is None:
             ub = f"ub{k}a"
         return {"m": "register_bounds", "lb": lb, "ub": ub}
 
     def m_adapt():
-        return {"m": "register_adaptation", "K": rng.choice(["Ks", "Kv0", "Kv1", "Km"],
-                                                            p=[1, 3, 3, 1.5])}
+        return {"m": "register_adaptation", "K": rng.choice(["Ks", "Kv0", "Kv1", "Km", "Kml", "Kmu"],
+                                                            p=[1, 3, 3, 1.5, 0.7, 0.5])}
 
     def m_base():
         return {"m": "register_baseline", "baseline": rng.choice(["b0", "bs", "bv0", "bv1", "bvz"])}
